@@ -123,12 +123,12 @@ static void run() {
         for (unsigned e = 0; e < 2048; e++) for (int p = 0; p < 16; p++) {
             if ((int)((e * 16 + p) % a.nworkers) != a.worker) continue;
             Case c; c.set("kind", "core"); c.set("lang", le->name_en); c.set("e", e); c.set("p", (uint64_t)p); set_current(c);
-            std::string m = oracle(c); n++; if (!m.empty()) { record_failure(c, m); return; }
+            std::string m = oracle(c); n++; if (!m.empty() && enum_fail(c, m)) return;
         }
         W().ev.enumerated["gf-core (element e x position p) [this worker's shard]"] += n;
     }
     // phrases: quick = stride-sampled substitutions in the sorted languages (all 2047 per position in thorough), Chinese sampled
-    rc_run("c02-phrases", a.n(40, 1500), 100, [&]() {
+    rc_run("c02-phrases", a.n(40, 700), 100, [&]() {
         auto sec = *g::secret19(); int bd = *g::birthday(); unsigned uf = *in_range<unsigned>(0, 8), enc = *in_range<unsigned>(0, 2); int coin = *g::coin(); int li = *g::lang_index();
         const lib::LangEntry& le = REG->at(li); bool zh = is_zh(le.name_en);
         bool full = W().args.thorough() ? !zh || *in_range<int>(0, 8) == 0 : (!zh && *in_range<int>(0, 4) == 0);
